@@ -38,7 +38,8 @@ the polyhedral approximation of curved kinds) to an operand's boundary are skipp
 counted.  Documented refusals (NotImplementedError, "does not support ...") are counted
 as refused.  Signatures are <op>[:lazyX]:<TypeA>-x-<TypeB>:<tag>.  Per item at most one
 violation for each independent class of discrepancy: z-dropped (result rebuilt at another
-height); the first of member-missing / nonmember-included / dist-positive-on-member /
+height); flattened-to-plane (members of a 3-D operand collapsed into the plane of a planar
+result); the first of member-missing / nonmember-included / dist-positive-on-member /
 dist-zero-on-nonmember / aabb-excludes-member / dist-wrong-value; z-ignored-distance
 (distance as if a planar operand's height were ignored); and, only when nothing else is
 wrong, z-ignored (containsPoint answers for the infinite footprint column of a planar
@@ -411,7 +412,11 @@ def do_op(item):
             for i in np.nonzero(badm)[0]:
                 if P[i, 2] != zR and float(Rg.distanceTo(vec((P[i, 0], P[i, 1], zR)))) <= tol:
                     dropped[i] = True
-        note("z-dropped", dropped, f"the result holds these members' (x, y) but sits at height {zR} instead of the operands' plane(s) {planes}", ("member", exp), ("distanceTo", o.dist))
+        if zR is not None and any(abs(zR - z) <= 1e-9 for z in planes):
+            # the result lies in an operand's plane, yet members of a 3-D operand off that plane are lost
+            note("flattened-to-plane", dropped, f"the planar result at height {zR} holds these members' (x, y), but they belong to a 3-D operand and do not lie in that plane", ("member", exp), ("distanceTo", o.dist))
+        else:
+            note("z-dropped", dropped, f"the result holds these members' (x, y) but sits at height {zR} instead of the operands' plane(s) {planes}", ("member", exp), ("distanceTo", o.dist))
         note("dist-positive-on-member", badm & ~dropped & ~any_false, "distanceTo of the result is positive on members", ("member", exp), ("distanceTo", o.dist))
         note("dist-zero-on-nonmember", badn & ~any_true, "distanceTo of the result is zero on clear non-members", ("member", exp), ("distanceTo", o.dist))
         note("z-ignored-distance", (badm & ~dropped & any_false) | (badn & any_true), "distanceTo of the result is zero / positive as if the height of a planar operand were ignored", ("member", exp), ("distanceTo", o.dist))
@@ -440,9 +445,9 @@ def do_op(item):
         # bounding box, (C) distance ignoring a height; (D) containsPoint answering for
         # the footprint column is reported only when nothing else is wrong.
         hard = ["member-missing", "nonmember-included", "dist-positive-on-member", "dist-zero-on-nonmember", "aabb-excludes-member", "dist-wrong-value"]
-        order = ["z-dropped"] + hard + ["z-ignored-distance", "z-ignored"]
+        order = ["z-dropped", "flattened-to-plane"] + hard + ["z-ignored-distance", "z-ignored"]
         text = f"{desc0}; {int(ok.sum())} probes judged.\n" + "\n".join(found[t] for t in order if t in found)
-        emit = [t for t in ("z-dropped",) if t in found] + [t for t in hard if t in found][:1] + [t for t in ("z-ignored-distance",) if t in found]
+        emit = [t for t in ("z-dropped", "flattened-to-plane") if t in found] + [t for t in hard if t in found][:1] + [t for t in ("z-ignored-distance",) if t in found]
         if not emit:
             emit = ["z-ignored"]
         for t in emit:
